@@ -130,6 +130,38 @@ def rule_QUAD(ctx):
             res.ob(bad is None, {'fn': f.q, 'q': k, 'paths': len(paths)} if (bad or k in (0, -1)) else None)
             if bad:
                 res.fail(f.q, 'q=%d' % k, f.loc(), '%s with quadrant count %d: %s' % (f.q, k, bad))
+    # the sign of the exact values comes from the reduced angle (copysign read as |a| sgn(b) instead of forking)
+    for name in ('sincosd', 'sincosde', 'sind', 'cosd'):
+        f = _fn(ctx, NS + 'Math::' + name)
+        ev = SymEval(ctx.prog, noinline={NS + 'Math::AngRound'}, max_paths=2000)
+        ev.preset_outs = {'q': 0}
+        ev.copysign_model = 'sgn'
+        try:
+            paths = [p for p in ev.explore(f) if p.outcome == 'return']
+        except Unsupported as e:
+            raise AnalysisBroken('QUAD: %s not evaluated: %s' % (f.q, e))
+        bad = None
+        nspecial = 0
+        for p in paths:
+            if not _special(p) or len(p.eqs) != 1:
+                continue
+            nspecial += 1
+            vals = [p.env.get(('v', pp['d'])) for pp in f.params if pp['pk'] == 'r'] if name.startswith('sincos') else [p.ret]
+            sg = [s_ for v in vals if v is not None for s_ in v.symbols() if s_.startswith('sgn(')]
+            if name != 'cosd' and not sg:
+                bad = bad or 'the exact sine on the %s-degree path carries no sign (%s)' % (_special(p), [v.show()[:40] for v in vals])
+            for s_ in sg:
+                inner = p.pure_args.get(s_, (None, [Poly()]))[1][0]
+                if not inner.symbols() or not all(x.startswith('remquo(') or x.startswith('AngRound(remquo(') or
+                                                  x.startswith('atan2(0') for x in inner.symbols()):
+                    bad = bad or 'the sign of the exact value on the %s-degree path is taken from %s, not from the reduced angle' \
+                        % (_special(p), inner.show()[:60])
+        ncase += 1
+        if nspecial < 2:
+            raise AnalysisBroken('QUAD: %s: %d special-value paths in the sign pass' % (f.q, nspecial))
+        res.ob(bad is None, {'fn': f.q, 'sign_pass_paths': nspecial})
+        if bad:
+            res.fail(f.q, 'sign', f.loc(), '%s: %s' % (f.q, bad))
     res.analysed.update({'function_quadrant_cases': ncase, 'paths': npath})
     return res, ncase, npath
 
